@@ -46,6 +46,8 @@ func (fv *FuncVC) reset() {
 	fv.arrSnaps = nil
 	fv.allocSizes = nil
 	fv.sawStarHavoc = false
+	fv.strEqDone = nil
+	fv.lockOps = 0
 	fv.pc = "true"
 	fv.cur = &State{cells: map[*ssa.Alloc]string{}, heaps: map[string]string{}}
 }
@@ -97,6 +99,20 @@ func (fv *FuncVC) runOnce() {
 	fv.entry = fv.cur.clone()
 	entryEnv := fv.entryEnv()
 	con := fv.con
+	// A-LOCKENTRY: unless the contract talks about held(...), the function is entered holding none of
+	// the mutexes it acquires
+	lockReq := false
+	if con != nil {
+		for _, r := range con.Requires {
+			if strings.Contains(r.Src, "held(") {
+				lockReq = true
+			}
+		}
+	}
+	if !lockReq {
+		fv.heapGet("LOCK", "(Array Int Int)")
+		fv.emit("(assert (= LOCK@0 ((as const (Array Int Int)) 0)))")
+	}
 	if con != nil {
 		for _, r := range con.Requires {
 			t := entryEnv.tr(r.Expr)
@@ -467,6 +483,26 @@ func (fv *FuncVC) atReturn(ret *ssa.Return) {
 	}
 	fv.bindResults(env, res, fv.fn, con, fv.fn.Signature)
 	retID := fmt.Sprintf("ret-b%d", ret.Block().Index)
+	for _, gs := range con.GhostSets {
+		gt, ok := fv.g.spec.Ghosts[gs.Ghost]
+		if !ok {
+			fv.unsupp("spec error: atreturn: unknown ghost %s", gs.Ghost)
+			continue
+		}
+		t := fv.g.resolveType(gt)
+		name, sort := "GH$"+gs.Ghost, fv.sortOf(t)
+		val := env.tr(gs.Val)
+		if gs.Idx != nil {
+			idx := env.tr(gs.Idx)
+			if at, ok := t.Underlying().(*types.Array); ok && isFloat(at.Elem()) && !sortIsReal(env, val) {
+				val = &Val{T: "(to_real " + val.T + ")", Typ: at.Elem()}
+			}
+			fv.heapSet(name, sort, "(store "+fv.heapGet(name, sort)+" "+idx.T+" "+val.T+")")
+		} else {
+			fv.heapSet(name, sort, val.T)
+		}
+		fv.reportSpecErrs(env, &Clause{File: con.File, Line: gs.Line})
+	}
 	for i, e := range con.Ensures {
 		if e.Free {
 			continue
